@@ -125,11 +125,15 @@ class Prog:
 
         pre = mkfn(asked + (("zz",) if ask_zz else ()), rec("pre", True), name="pre")
         # (with po False the capture, too, has a defaulted parameter that is not a parameter of f)
-        cap = mkfn(asked + (() if po else ("extra_c=77",)), rec("cap", "captured"), name="cap")
+        # ... and asks for the named parameters of f through parameters with default values of its own: it must still get the
+        # objects of the call, not its defaults
+        own_defaults = ("_ARGS", "_KWARGS") + tuple(n + "=-12345" for n in sig.named)
+        cap = mkfn(asked if po else own_defaults + ("extra_c=77",), rec("cap", "captured"), name="cap")
         # po: the postcondition itself asks for OLD; otherwise only its error factory does, which then also has a parameter
         # with a default value that is not a parameter of f
         post = mkfn(asked + ("result",) + (("OLD",) if po else ()), rec("post", lambda: prog.h.post_truth), name="post")
-        err = mkfn(asked + ("result", "OLD") + (() if po else ("extra_e=2021",)), rec("err", lambda: Tag("post")), name="err")
+        err = mkfn(asked + ("result", "OLD") if po else ("result", "OLD") + own_defaults + ("extra_e=2021",),
+                   rec("err", lambda: Tag("post")), name="err")
         f = icontract.ensure(post, error=err)(self.bare)
         f = icontract.snapshot(cap, name="snap")(f)
         f = icontract.require(pre, error=lambda: Tag("pre"))(f)
